@@ -85,6 +85,13 @@ def cases(draw, tier="quick"):
                 lo, hi = int(min(ints)), int(max(ints))
                 ints = list(range(lo, hi + 1))
             case["expected"] = {"labels": [int(x) for x in ints], "as": case["expected"]["as"], "cast": "int"}
+    if lab["kind"] in ("int", "negint", "u1", "i2") and present and draw(st.integers(0, 3)) == 0:
+        # requested labels given as a pandas RangeIndex (any start / step, possibly partly outside the data)
+        start = int(min(present)) + draw(st.integers(-1, 1))
+        step = draw(st.sampled_from([1, 1, 2, 3, -1]))
+        cnt = draw(st.integers(1, 5))
+        stop = start + step * cnt
+        case["expected"] = {"labels": list(range(start, stop, step)), "as": "range", "range": [start, stop, step]}
     case["sort"] = draw(st.sampled_from([True, True, False]))
     case["min_count"] = draw(st.sampled_from([None, None, 0, 1, 2, 99]))
     fills = ["nan", 0, -3, 1000000, False]
@@ -142,6 +149,8 @@ def slot_model(case, arr, by):
                 cells.append(("mincount", fill))
             elif mc is None and nv == 0:
                 cells.append(("unspec", UNSPEC))  # implicit masking: property is silent
+            elif nv == 0 and mc == 0 and func in ("nanmin", "nanmax"):
+                cells.append(("value-nanminmax-allnan-mc0", v))
             else:
                 cells.append(("value", v))
         model.append(cells)
@@ -193,6 +202,8 @@ def check(out, case, arr, res, keys, model, where):
                 if not bool(np.all(close(np.asarray(got), np.asarray(want), rtol, atol))):
                     method = where.split("method=")[1].split(",")[0] if "method=" in where else "-"
                     sig = ("value", where.split(":")[0], f"sort={case.get('sort')}", f"method={method}")
+                    if kind == "value-nanminmax-allnan-mc0":
+                        sig = ("value-nanminmax-allnan-explicit-min_count=0",)
                     if sig not in seen:
                         seen.add(sig)
                         out.add(sig, f"[{where}] func={func} slot {keys[i]!r}: got {got!r}, reference {want!r}")
@@ -227,7 +238,7 @@ def execute(case) -> Outcome:
                 if t.ok:
                     rtol, atol = tol_for(func, arr.dtype)
                     a, b = e.value[0], t.value[0]
-                    spec = np.array([[c[0] == "value" for c in cells] for cells in model]).reshape(a.shape)
+                    spec = np.array([[c[0].startswith("value") for c in cells] for cells in model]).reshape(a.shape)
                     if a.shape != b.shape or not bool(np.all(close(a, b, rtol, atol) | ~spec)):
                         out.add(
                             ("twin", func),
